@@ -10,6 +10,7 @@ import (
 	"strings"
 
 	"github.com/hashicorp/hcl-lang/lang"
+	"github.com/hashicorp/hcl/v2/hclsyntax"
 	"github.com/zclconf/go-cty/cty"
 )
 
@@ -119,8 +120,9 @@ func (o Object) attributesCompletionData(ctx context.Context, placeholder, nesti
 			continue
 		}
 
-		newText += fmt.Sprintf("%s%s = %s\n", attrNesting, name, attrData.NewText)
-		snippet += fmt.Sprintf("%s%s = %s\n", attrNesting, name, attrData.Snippet)
+		key := objectKeyText(name)
+		newText += fmt.Sprintf("%s%s = %s\n", attrNesting, key, attrData.NewText)
+		snippet += fmt.Sprintf("%s%s = %s\n", attrNesting, escapeSnippetText(key), attrData.Snippet)
 		nextPlaceholder = attrData.NextPlaceholder
 	}
 
@@ -234,4 +236,14 @@ func (oa ObjectAttributes) Copy() ObjectAttributes {
 		m[name] = aSchema.Copy()
 	}
 	return m
+}
+
+// objectKeyText returns the text an attribute name is written with
+// as a key of an object: as it is if it is a valid identifier,
+// as a quoted string (meant literally, not as a template) otherwise
+func objectKeyText(name string) string {
+	if hclsyntax.ValidIdentifier(name) {
+		return name
+	}
+	return fmt.Sprintf("%q", escapeTemplateSequences(name))
 }
